@@ -27,6 +27,10 @@ func (p recvProp) Decode(raw json.RawMessage) (interface{}, error) {
 	err := json.Unmarshal(raw, &in)
 	for i := range in.Items {
 		if in.Items[i].XML == "" {
+			if in.Items[i].T == "stanza" && in.Items[i].Size > 0 {
+				in.Items[i].renderSized(in.WS) // exactly Size bytes on the wire, on either transport
+				continue
+			}
 			in.Items[i].render()
 			if in.WS && in.Items[i].T == "stanza" {
 				in.Items[i].XML = wsNS(in.Items[i].XML)
@@ -74,6 +78,20 @@ func (p recvProp) Key(inp interface{}) (string, bool) {
 		if it.T == "stanza" {
 			k += fmt.Sprint(it.Kind)
 			st++
+			if it.Size > 0 {
+				k += fmt.Sprintf("[%d/%d]", it.Size, it.Shape)
+				hist("item:sized:" + sizeClass(it.Size) + []string{":long-text", ":many-children"}[it.Shape%2])
+				switch {
+				case in.WS && in.Frag:
+					hist("sized-over:websocket-fragmented")
+				case in.WS:
+					hist("sized-over:websocket-one-message")
+				case in.Logged:
+					hist("sized-over:xmpp-transport-read-path")
+				default:
+					hist("sized-over:stub")
+				}
+			}
 		}
 		if it.T == "r" {
 			nr++
@@ -315,9 +333,128 @@ func (p recvProp) Oracle(inp interface{}, obs Sx) (string, string) {
 	return "", ""
 }
 
+// sizeClass names the size of an element for the input distribution.
+func sizeClass(n int) string {
+	switch {
+	case n < 64<<10:
+		return "<64KiB"
+	case n < 1<<20:
+		return "64KiB..1MiB-1"
+	case n == 1<<20:
+		return "=1MiB"
+	case n <= 2<<20:
+		return "1MiB+1..2MiB"
+	case n <= 4<<20:
+		return "2MiB..4MiB"
+	default:
+		return ">4MiB"
+	}
+}
+
+// sizedItem: a stanza whose serialization is exactly size bytes on the transport it is sent over.
+func sizedItem(kind, id, size, shape int, ws bool) rItem {
+	it := rItem{T: "stanza", Kind: kind, ID: id, Size: size, Shape: shape}
+	it.renderSized(ws)
+	return it
+}
+
+// genSized: the size dimension. One element of a size around the powers of two a transport may treat specially
+// (64 KiB, 1 MiB) and well beyond, as one long text and as many small children, alone and with further elements
+// behind it (they must be routed and answered too), over each transport: the stub, the real XMPPTransport read path,
+// the WebSocket transport with the element as one message and as a fragmented message; client and component.
+func genSized(r *rand.Rand, tier string) []interface{} {
+	sizes := []int{64<<10 - 1, 64 << 10, 1<<20 - 1, 1 << 20, 1<<20 + 1, 3 << 19, 4 << 20}
+	if tier == "thorough" {
+		sizes = append(sizes, 2<<20+1, 16<<20)
+	}
+	var out []interface{}
+	small := func(id int) rItem {
+		it := rItem{T: "stanza", Kind: id % 3, ID: id, Var: 0}
+		it.render()
+		return it
+	}
+	req := rItem{T: "r"}
+	req.render()
+	for _, size := range sizes {
+		for shape := 0; shape < 2; shape++ {
+			for tr := 0; tr < 5; tr++ { // 0 stub, 1 read path of XMPPTransport, 2 websocket, 3 websocket fragmented, 4 component (stub)
+				for _, followed := range []bool{false, true} {
+					ws := tr == 2 || tr == 3
+					in := recvIn{Cut: -1, SM: r.Intn(2) == 0, Logged: tr == 1, ErrWithData: tr == 1 && r.Intn(2) == 0, WS: ws, Frag: tr == 3, Component: tr == 4}
+					if tr == 0 || tr == 4 {
+						in.Chunk = []int{0, 4096, 65536}[r.Intn(3)]
+					}
+					if tr == 4 {
+						in.SM = false
+					}
+					kind := r.Intn(3)
+					if shape == 1 && kind == 2 && r.Intn(2) == 0 {
+						kind = 0
+					}
+					items := []rItem{small(1), sizedItem(kind, 2, size, shape, ws)}
+					if !followed && r.Intn(2) == 0 {
+						items = items[1:] // the very first element of the session
+					}
+					if followed {
+						items = append(items, small(3))
+						if tr != 4 {
+							items = append(items, req)
+						}
+						if r.Intn(2) == 0 {
+							// a second one of another size right behind
+							items = append(items, sizedItem(r.Intn(3), 5, sizes[r.Intn(len(sizes))]/(1+r.Intn(3)), r.Intn(2), ws))
+						}
+						items = append(items, small(6))
+					}
+					if ws {
+						items = wsify(items)
+					}
+					in.Items = items
+					out = append(out, in)
+				}
+			}
+		}
+	}
+	// random sizes in random histories, over each transport
+	n := 40
+	if tier == "thorough" {
+		n = 400
+	}
+	for i := 0; i < n; i++ {
+		ws := i%2 == 0
+		in := recvIn{Cut: -1, SM: r.Intn(2) == 0, WS: ws, Frag: ws && i%4 == 0, PeerClose: ws && i%8 == 2, Logged: !ws && i%4 == 1, Component: !ws && i%8 == 3}
+		if in.Component {
+			in.SM = false
+		}
+		if !ws {
+			in.Chunk = []int{0, 4096, 65536}[r.Intn(3)]
+		}
+		items := genItems(r, 1+r.Intn(12), false, in.Component)
+		for k := 0; k < 1+r.Intn(2); k++ {
+			var size int
+			switch r.Intn(3) {
+			case 0:
+				size = 30000 + r.Intn(1<<20)
+			case 1:
+				size = 1<<20 - 2 + r.Intn(5)
+			default:
+				size = 1<<20 + r.Intn(2<<20)
+			}
+			at := r.Intn(len(items) + 1)
+			items = append(items[:at:at], append([]rItem{sizedItem(r.Intn(3), 7000+10*i+k, size, r.Intn(2), ws)}, items[at:]...)...)
+		}
+		if ws {
+			items = wsify(items)
+		}
+		in.Items = items
+		out = append(out, in)
+	}
+	return out
+}
+
 func init() {
 	register(recvProp{id: "C05", w: 8, gen: genC05,
-		rule: "random inbound histories (0-60 items over message/presence/iq of each type with varied content, <r/>, <a/>, features and other non-stanza elements, stream errors, stream close, rejected elements), client with SM on/off and component, read chunk sizes 1/7/unlimited, write faults on the answers (one write, several, or every write from some point on); histories around a stream error whose event handler leaves the connection alone or replaces it as a StreamManager does; the keepalive quit channel sampled whenever the receive goroutine enters a callback or a transport call; one history in seven read through the real XMPPTransport read path (traffic logger, buffered decoder) over a scripted net.Conn whose last bytes arrive together with the read error; one case in nine over the real WebSocket transport (loopback websocket server, one frame per element, frames up to 28 kB, single messages up to 210 kB); a receiver that starts only after a burst of 300-450 elements was sent and the connection ended, its answers written on the dead connection; a traffic log that refuses writes from some point on; a client without error callback; distinct = role/sm/fault + item-kind sequence; non-trivial = >= 2 stanzas and (component or >= 1 <r/>)"})
+		rule: "random inbound histories (0-60 items over message/presence/iq of each type with varied content, <r/>, <a/>, features and other non-stanza elements, stream errors, stream close, rejected elements), client with SM on/off and component, read chunk sizes 1/7/unlimited, write faults on the answers (one write, several, or every write from some point on); histories around a stream error whose event handler leaves the connection alone or replaces it as a StreamManager does; the keepalive quit channel sampled whenever the receive goroutine enters a callback or a transport call; one history in seven read through the real XMPPTransport read path (traffic logger, buffered decoder) over a scripted net.Conn whose last bytes arrive together with the read error; one case in nine over the real WebSocket transport (loopback websocket server, one frame per element, frames up to 28 kB, single messages up to 210 kB); the size dimension: one element of exactly 64 KiB - 1, 64 KiB, 1 MiB - 1, 1 MiB, 1 MiB + 1, 1.5 MiB, 4 MiB (thorough: 2 MiB + 1, 16 MiB) bytes and of random sizes up to 3 MiB, as one long text and as many small children, alone, first, and followed by further stanzas, an <r/> and a second sized element, over the stub, the XMPPTransport read path, the WebSocket transport as one message and as a message fragmented into 60 kB frames, client and component (sized elements are generated from (kind, id, size, shape) on both sides, not stored in case files); a receiver that starts only after a burst of 300-450 elements was sent and the connection ended, its answers written on the dead connection; a traffic log that refuses writes from some point on; a client without error callback; distinct = role/sm/fault + item-kind sequence; non-trivial = >= 2 stanzas and (component or >= 1 <r/>)"})
 }
 
 func genC05(r *rand.Rand, tier string) []interface{} {
@@ -357,6 +494,7 @@ func genC05(r *rand.Rand, tier string) []interface{} {
 			out = append(out, recvIn{Component: comp, Items: []rItem{d, after}, Cut: -1})
 		}
 	}
+	out = append(out, genSized(r, tier)...)
 	for i := 0; i < n; i++ {
 		in := recvIn{Cut: -1}
 		in.Component = r.Intn(4) == 0
